@@ -2,8 +2,8 @@
    Walk side: model/Walk.v (members loop, gates regenerated from the source).  The zip listing
    itself (which members an archive has, or that it is unreadable) is an input from the
    observer: `NFile _ _ _ (Some members)`.  Statements only. *)
-From Coq Require Import List NArith Bool.
-From FS Require Import lib.Str gen.GatesGen model.Walk spec.WalkSpec proofs.WalkBase proofs.WalkDfs proofs.WalkCor.
+From Coq Require Import List NArith Bool Permutation.
+From FS Require Import lib.Str gen.GatesGen model.Walk spec.WalkSpec proofs.WalkBase proofs.WalkDfs proofs.WalkCor proofs.WalkCorBfs.
 Import ListNotations.
 Open Scope N_scope.
 
@@ -29,6 +29,15 @@ Theorem C19_walk : forall accept buffered o fuel nm i g kk p c,
                 filter plain_row (out s1) = out s2 /\ errs s1 = errs s2.
 Proof. exact C19_walk_dfs. Qed.
 
+(* ... and in breadth-first mode (the binary's default) *)
+Theorem C19_walk_bfs : forall accept buffered o fuel nm i g kk p c,
+  (nodes (NDir nm i g true kk) <= fuel)%nat -> canon_ok c -> names_ok kk -> NoDup (i :: inodes_of kk) ->
+  o_dfs o = false ->
+  exists s1 s2, walk_root accept buffered 0 (set_arc true o) fuel p c (NDir nm i g true kk) st0 = Some s1 /\
+                walk_root accept buffered 0 (set_arc false o) fuel p c (NDir nm i g true kk) st0 = Some s2 /\
+                filter plain_row (out s1) = out s2 /\ errs s1 = errs s2.
+Proof. exact WalkCorBfs.C19_walk_bfs. Qed.
+
 (* a corrupt / unreadable archive (zip = None) contributes its own row and nothing else *)
 Theorem C19_corrupt_skipped : forall arc p nm i g,
   rows_of arc (1, p, NFile nm i g None) = [(p, None)].
@@ -37,4 +46,5 @@ Proof. intros; reflexivity. Qed.
 Print Assumptions C19_ordinary_rows_unchanged.
 Print Assumptions C19_members_once.
 Print Assumptions C19_walk.
+Print Assumptions C19_walk_bfs.
 Print Assumptions C19_corrupt_skipped.
